@@ -196,7 +196,9 @@ uint16_t ScriptClient::send_name(const std::string &name, int id, int qtype_over
 	uint16_t qid = id >= 0 ? (uint16_t)id : next_id++;
 	if (id < 0 && qid == 0) qid = next_id++;
 	Datagram dg; dg.src = addr; dg.dst = server;
-	dg.data = refproto::make_query(qid, name, qtype_override >= 0 ? (uint16_t)qtype_override : refproto::qtype_of(qtype_k), edns0);
+	uint16_t qt = qtype_override >= 0 ? (uint16_t)qtype_override : refproto::qtype_of(qtype_k);
+	dg.data = refproto::make_query(qid, name, qt, edns0);
+	sent.push_back(SentQ{W.now, qid, name, qt, addr, dg.data});
 	W.send(dg);
 	return qid;
 }
